@@ -151,6 +151,7 @@ def ref_eval_points(algo, u1, v1, a1, un, vn, an, prm):
 
 def run(ctx):
     ctx.attempt(step_commit_rule, ctx)
+    ctx.attempt(newton_loop_rule, ctx)
     # 'for all step sequences including switching algorithm or step size between steps': no memo of a scheme-dependent quantity survives a change of the scheme
     from ..shared import memo_rule as _memo_rule, cached_param_rule as _cached_param_rule
 
@@ -517,3 +518,100 @@ def step_commit_rule(ctx):
         r.ok("_Set_solutions: u -> u slot, v -> v slot, a -> a slot")
     else:
         r.fail(fset.qualname, "slots", fset.file, fset.lineno, "_Set_solutions", f"(u, v, a) are stored as {[(k, getattr(x, 'data', x)) for k, x in log]}")
+
+
+def newton_loop_rule(ctx):
+    """R5.11: the Newton-Raphson driver: starting from the committed displacement, every iteration re-assembles
+    (Need_Update), publishes the current iterate (the value the incremental Dirichlet values and the tangent are
+    computed at) BEFORE solving, adds the solved increment, and stops at the first iterate meeting a tolerance; the
+    result is u_n + sum of the increments and a non-converged loop raises.  Interpreted with a scripted linear solver."""
+    from ..xeval import Interp, XObj, FuncInfo, XRaise, Sink
+    from ..xarray import XArray
+
+    repo = ctx.repo
+    r = ctx.rule("R5.11", "Newton-Raphson driver: u = u_n + sum(delta_k); each iteration raises Need_Update and publishes the current iterate before the solve; stops at the first iterate within tolerance; raises when not converged", min_instances=2)
+    simu = repo.cls(SIMU)
+    f = simu.methods["_Solver_Solve_Newton_Raphson"]
+    for label, norms, absTol, maxIter, expect_iters, expect_raise in (("converges at the third iterate", [Q(1), Q(1, 2), Q(1, 1000)], Q(1, 100), 20, 3, False), ("never within tolerance", [Q(1), Q(1), Q(1)], Q(1, 100), 3, 3, True)):
+        r.instance(fn=f.qualname)
+        u_n = XArray((2,), [Poly.var("u0"), Poly.var("u1")])
+        deltas = [XArray((2,), [Q(3 + k), Q(4 + 2 * k)]) for k in range(len(norms))]
+        log = []
+        state = {"k": 0, "current": None}
+
+        def solve(*a, **k):
+            i = state["k"]
+            state["k"] += 1
+            cur = state["current"]
+            log.append(("solve", None if cur is None else list(cur.data)))
+            return deltas[i], norms[i]
+
+        def set_current(u):
+            state["current"] = XArray(u.shape, list(u.data))  # value at the time of the call
+            log.append(("publish", list(u.data)))
+
+        obj = XObj(simu, {
+            "_Get_u_n": lambda pt=None: XArray(u_n.shape, list(u_n.data)),
+            "Need_Update": lambda *a, **k: log.append(("need_update", None)),
+            simu.mangle("__Solver_Set_Newton_Raphson_current_solution"): set_current,
+            simu.mangle("__Solver_Get_Newton_Raphson_Params"): lambda: (absTol, Q(1, 10**9), Q(1, 10**9), maxIter),
+            "problemType": Opaque("pt"), "Niter": 0,
+        })
+
+        def hook(fn, args, kwargs):
+            fi = fn if isinstance(fn, FuncInfo) else getattr(fn, "finfo", None)
+            if isinstance(fi, FuncInfo) and fi.name == "Solve_simu":
+                return solve()
+            if isinstance(fi, FuncInfo) and fi.module.name.endswith(".Terminal"):
+                return None
+            return NotImplemented
+
+        I = Interp(repo, extra_builtins={"MPI_RANK": 1, "MPI_SIZE": 1, "Tic": lambda *a, **k: Sink()})
+        I.call_hook = hook
+        raised = None
+        try:
+            out = I.call_function(f, [Opaque("pt")], self_obj=obj)
+        except XRaise as e:
+            raised = e
+            out = None
+        bad = None
+        if expect_raise:
+            if raised is None:
+                bad = "the loop ends without converging and no error is raised"
+        elif raised is not None:
+            bad = f"raises {raised}"
+        else:
+            u = XArray.from_nested(out[0])
+            want = [u_n.data[i] + sum((deltas[k].data[i] for k in range(expect_iters)), Q(0)) for i in range(2)]
+            if state["k"] != expect_iters:
+                bad = f"{state['k']} linear solves, expected {expect_iters} (stop at the first iterate within tolerance)"
+            elif any(not is_zero(Poly.of(u.data[i]) - want[i]) for i in range(2)):
+                bad = f"returns {list(u.data)!r}, expected u_n + sum of the increments = {want!r}"
+        if bad is None:
+            # per iteration: need_update and publish precede the solve, and the published iterate is u_n + previous increments
+            k = 0
+            seq = [x for x in log]
+            idx = 0
+            for it in range(state["k"]):
+                chunk = []
+                while idx < len(seq) and seq[idx][0] != "solve":
+                    chunk.append(seq[idx])
+                    idx += 1
+                if idx >= len(seq):
+                    bad = "missing solve"
+                    break
+                solve_entry = seq[idx]
+                idx += 1
+                kinds = [c[0] for c in chunk]
+                cur = [u_n.data[i] + sum((deltas[j].data[i] for j in range(it)), Q(0)) for i in range(2)]
+                if "need_update" not in kinds:
+                    bad = f"iteration {it + 1}: the system is not re-assembled (no Need_Update before the solve)"
+                    break
+                pub = [c for c in chunk if c[0] == "publish"]
+                if not pub or any(not is_zero(Poly.of(pub[-1][1][i]) - cur[i]) for i in range(2)):
+                    bad = f"iteration {it + 1}: the iterate published before the solve is {pub[-1][1] if pub else None!r}, expected u_n + previous increments = {cur!r}"
+                    break
+        if bad:
+            r.fail(f.qualname, f"newton:{label}", f.file, f.lineno, "_Solver_Solve_Newton_Raphson", f"{label}: {bad}")
+        else:
+            r.ok(f"{label}: {state['k']} iterations")
